@@ -64,6 +64,22 @@ static void run_scalar(Ctx &c) {
         S bt = (S)c.p.get("beta"); out = w; be::lin_comb((size_t)k, cf, vs, bt, out);
         for (long i = 0; i < n; ++i) { V s = bt * w[i]; for (long q = 0; q < k; ++q) s += cf[q] * (*vs[q])[i]; if (!eq(out[i], s)) { c.fail("lin_comb", "formula", fmt("element %ld of %ld vectors, alpha %ld", i, k, c.p.get("beta"))); break; } }
     }
+    if (!std::is_same<V, S>::value) {
+        // coefficients of the value type itself (complex coefficients, as the Krylov solvers pass them for complex systems)
+        V aV = mk<V>::num(c.p.get("alpha"), 1 + c.p.get("beta") % 2), bV = mk<V>::num(c.p.get("beta"), -1), cV = mk<V>::num(2, 1);
+        out = y; be::spmv(aV, A, x, bV, out); for (long i = 0; i < n; ++i) if (!eq(out[i], aV * Ax(i) + bV * y[i])) { c.fail("spmv", "formula-value-typed-coefficients", fmt("row %ld", i)); break; }
+        out = poisoned(); be::spmv(aV, A, x, V(), out); for (long i = 0; i < n; ++i) if (!eq(out[i], aV * Ax(i))) { c.fail("spmv", "beta-zero-ignores-output-value-typed-coefficients", fmt("row %ld", i)); break; }
+        out = z; be::axpby(aV, y, bV, out); for (long i = 0; i < n; ++i) if (!eq(out[i], aV * y[i] + bV * z[i])) { c.fail("axpby", "formula-value-typed-coefficients", fmt("element %ld", i)); break; }
+        out = w; be::axpbypcz(aV, y, bV, z, cV, out); for (long i = 0; i < n; ++i) if (!eq(out[i], aV * y[i] + bV * z[i] + cV * w[i])) { c.fail("axpbypcz", "formula-value-typed-coefficients", fmt("element %ld", i)); break; }
+        out = poisoned(); be::axpbypcz(aV, y, bV, z, V(), out); for (long i = 0; i < n; ++i) if (!eq(out[i], aV * y[i] + bV * z[i])) { c.fail("axpbypcz", "c-zero-ignores-output-value-typed-coefficients", fmt("element %ld", i)); break; }
+        std::vector<std::shared_ptr<std::vector<V> > > vs; std::vector<V> cf; long k = 1 + (c.p.get("lc") + c.p.get("alpha") + 8) % 6;
+        for (long q = 0; q < k; ++q) { auto v = std::make_shared<std::vector<V> >(n); for (long i = 0; i < n; ++i) (*v)[i] = mk<V>::num(c.r.range(-4, 4), c.r.range(-2, 2)); vs.push_back(v); cf.push_back(mk<V>::num(c.r.range(-3, 3), c.r.range(-2, 2))); }
+        out = poisoned(); be::lin_comb((size_t)k, cf, vs, V(), out);
+        for (long i = 0; i < n; ++i) { V s2 = V(); for (long q = 0; q < k; ++q) s2 += cf[q] * (*vs[q])[i]; if (!eq(out[i], s2)) { c.fail("lin_comb", "alpha-zero-ignores-output-value-typed-coefficients", fmt("element %ld of %ld vectors", i, k)); break; } }
+        out = w; be::lin_comb((size_t)k, cf, vs, bV, out);
+        for (long i = 0; i < n; ++i) { V s2 = bV * w[i]; for (long q = 0; q < k; ++q) s2 += cf[q] * (*vs[q])[i]; if (!eq(out[i], s2)) { c.fail("lin_comb", "formula-value-typed-coefficients", fmt("element %ld of %ld vectors", i, k)); break; } }
+        c.res.counts["value_typed_coefficient_worlds"]++;
+    }
     { // inner product: conjugate-linear in the second argument
         auto ip = be::inner_product(y, z); decltype(ip) want = decltype(ip)();
         for (long i = 0; i < n; ++i) want += amgcl::math::inner_product(y[i], z[i]);
